@@ -58,6 +58,10 @@ impl Extension {
     pub(crate) fn vec_from_document(document: &Document) -> Vec<Extension> {
         let mut extensions = Vec::new();
         for item in document.root_element().namespaces() {
+            // The E57 namespace itself is not an extension, even if it is used with a prefix
+            if item.uri() == "http://www.astm.org/COMMIT/E57/2010-e57-v1.0" {
+                continue;
+            }
             if let Some(name) = item.name() {
                 extensions.push(Extension {
                     namespace: name.to_string(),
